@@ -46,3 +46,16 @@ package headers
 //@   loop 0 invariant 0 <= i && i <= n+1 && i <= len(sCopy) && s === sCopy[:len(sCopy)-i]
 //@   loop 0 invariant forall k :: len(sCopy)-i <= k && k < len(sCopy) ==> isOWS(sCopy[k])
 //@   loop 0 decreases len(s)
+
+//@ func First
+//@   props C02 C03 C09 C10 C11 C16 C17 C18
+//@   pure
+//@   allocs <= 0
+//@   ensures result2 == (has(hdrs, k) && len(get(hdrs, k)) > 0)
+//@   ensures result2 ==> result0 === get(hdrs, k)[0] && result1 === get(hdrs, k)[:1]
+//@   ensures !result2 ==> len(result0) == 0 && result1 === nil
+
+//@ func Check
+//@   props C02 C03 C09 C10 C14 C16 C17 C18
+//@   pure
+//@   allocs <= 0
